@@ -456,6 +456,10 @@ pub struct SweepWorld<'a> {
     pub inbound: Option<(&'static str, Vec<u8>)>,
     /// answers every function name
     pub anyfn: Address,
+    /// what earlier calls of the sequence were authorised by whom: (signers, addresses named in the arguments)
+    pub history: std::cell::RefCell<Vec<(Vec<Address>, Vec<Address>)>>,
+    /// signer sets that were outside the gateway's retention window when the world was built
+    pub old_sets: Vec<BuiltSet>,
 }
 
 pub const CUSTODY: i128 = 7_000;
@@ -463,8 +467,17 @@ pub const CUSTODY: i128 = 7_000;
 pub const TRUSTED: &str = "ethereum";
 
 pub fn build_world<'a>(open_windows: u8, symbols: &[String], with_inbound: bool) -> SweepWorld<'a> {
-    let w = build_its_world("stellar", "hub-address", 0);
+    let mut w = build_its_world("stellar", "hub-address", 0);
     let env = w.env.clone();
+    // the gateway (retention 0) has rotated twice: two signer sets are outside the window for good
+    let mut old_sets: Vec<BuiltSet> = vec![];
+    for tag in [8u16, 9] {
+        let next = simple_set(tag);
+        env.mock_all_auths();
+        assert!(w.gw.rotate(&env, &next, &w.set, w.set.full_mask(), false), "setup: honest rotation refused");
+        old_sets.push(w.set.clone());
+        w.set = next;
+    }
     w.trust(TRUSTED);
     let ops_owner = Address::generate(&env);
     let ops_operator = Address::generate(&env);
@@ -590,7 +603,7 @@ pub fn build_world<'a>(open_windows: u8, symbols: &[String], with_inbound: bool)
     names.sort();
     names.dedup();
     env.set_auths(&[]);
-    SweepWorld { w, ops, ops_owner, ops_operator, upgrader, example, t1, t1_id, t2, t2_owner, minter, user_a, user_b, stranger, accounts, contracts, names, gas2, approved, canonical_id, inbound, anyfn }
+    SweepWorld { w, ops, ops_owner, ops_operator, upgrader, example, t1, t1_id, t2, t2_owner, minter, user_a, user_b, stranger, accounts, contracts, names, gas2, approved, canonical_id, inbound, anyfn, history: Default::default(), old_sets }
 }
 
 impl<'a> SweepWorld<'a> {
@@ -834,28 +847,84 @@ pub fn strategy(rule: Rule) -> Option<BoxedStrategy<SweepCase>> {
         return None;
     }
     let unlisted: Vec<Ep> = eps.iter().filter(|e| e.unlisted).cloned().collect();
+    let eps_all: Vec<Ep> = eps.clone();
     let focus: Vec<Ep> = eps.iter().filter(|e| rule.focus(e)).cloned().collect();
     let listed: BoxedStrategy<Ep> = if focus.is_empty() { prop::sample::select(eps).boxed() } else { prop_oneof![1 => prop::sample::select(eps), 1 => prop::sample::select(focus)].boxed() };
-    let pick_ep: BoxedStrategy<Ep> = if unlisted.is_empty() { listed } else { prop_oneof![1 => listed, 1 => prop::sample::select(unlisted)].boxed() };
+    let pick_ep: BoxedStrategy<Ep> = if unlisted.is_empty() { listed } else { prop_oneof![1 => listed, 1 => prop::sample::select(unlisted.clone())].boxed() };
     let one = (pick_ep, prop::collection::vec(any::<u64>(), 8), any::<u64>()).prop_map(|(ep, mut seeds, pick)| {
         seeds.truncate(ep.types.len());
         (ep, seeds, pick)
     });
     let one = one.boxed();
-    Some(
-        (one.clone(), prop_oneof![3 => Just(0u8), 1 => 0u8..16], prop_oneof![1 => Just(vec![]).boxed(), 1 => prop::collection::vec(one, 1..4).boxed()])
-            .prop_map(|((ep, seeds, pick), open_windows, more)| SweepCase { ep, seeds, pick, open_windows, more })
-            .boxed(),
-    )
+    let general = (one.clone(), prop_oneof![3 => Just(0u8), 1 => 0u8..16], prop_oneof![1 => Just(vec![]).boxed(), 1 => prop::collection::vec(one, 1..4).boxed()])
+        .prop_map(|((ep, seeds, pick), open_windows, more)| SweepCase { ep, seeds, pick, open_windows, more })
+        .boxed();
+    if unlisted.is_empty() {
+        return Some(general);
+    }
+    // a tree with entry points the pinned inventory does not know: a third of the cases explore them together with the older
+    // entry points of the same contract (sequences of 3-6 calls; address arguments come from a narrowed pool, so that
+    // one call meets what another one named)
+    let (u, a) = (unlisted.clone(), eps_all.clone());
+    let feature = (any::<u64>(), prop::collection::vec(any::<u64>(), 3..7)).prop_map(move |(s0, picks)| feature_sequence(&u, &a, s0, &picks)).boxed();
+    Some(prop_oneof![2 => general, 1 => feature].boxed())
 }
 
-/// deterministic cases for entry points that are not in the pinned inventory
+/// a sequence of calls around the entry points the pinned inventory does not know: one contract that has such entry
+/// points is chosen; every call is one of its new entry points (two times in three) or one of its older ones; the argument
+/// seeds of all calls are small numbers, so that the pools are sampled at few positions and the calls name the same few
+/// addresses, ids and amounts
+fn feature_sequence(unlisted: &[Ep], all: &[Ep], s0: u64, picks: &[u64]) -> SweepCase {
+    let contract = unlisted[(s0 % unlisted.len() as u64) as usize].contract.clone();
+    let new_eps: Vec<&Ep> = unlisted.iter().filter(|e| e.contract == contract).collect();
+    let old_eps: Vec<&Ep> = all.iter().filter(|e| e.contract == contract && !e.unlisted).collect();
+    // older entry points whose name shares a word with a new one (transfer_ownership ~ propose_ownership, remove_operator ~
+    // nominate_operator, rotate_signers ~ schedule_rotation ...): the likeliest to interact; they get three older picks in four
+    let words = |n: &str| -> Vec<String> { n.split('_').filter(|w| w.len() >= 5).map(|w| w.trim_end_matches('s').chars().take(6).collect::<String>()).collect() };
+    let new_words: Vec<String> = new_eps.iter().flat_map(|e| words(&e.name)).collect();
+    let related: Vec<&Ep> = old_eps.iter().filter(|e| words(&e.name).iter().any(|w| new_words.contains(w))).cloned().collect();
+    let narrow = s0 / 7 % 3 + 2; // 2..4 pool positions per argument
+    let mut calls: Vec<(Ep, Vec<u64>, u64)> = vec![];
+    for (k, p) in picks.iter().enumerate() {
+        let ep: &Ep = if p % 3 != 0 || old_eps.is_empty() {
+            new_eps[(p / 3 % new_eps.len() as u64) as usize]
+        } else if !related.is_empty() && p / 3 % 4 != 0 {
+            related[(p / 12 % related.len() as u64) as usize]
+        } else {
+            old_eps[(p / 12 % old_eps.len() as u64) as usize]
+        };
+        // every argument seed comes from a palette of 2-4 values fixed for the whole sequence: arguments of the same type and
+        // name get the same value again and again (the same account nominated, added, removed and accepting)
+        // (the other half of the sequences: small, varied seeds - few pool positions, but not the same ones everywhere)
+        let seeds: Vec<u64> = if s0 / 3 % 2 == 0 {
+            (0..ep.types.len() as u64).map(|j| mix(s0, 1000 + mix(*p, 31 * k as u64 + j) % narrow) % 64).collect()
+        } else {
+            (0..ep.types.len() as u64).map(|j| 4 * (mix(*p, j) % narrow) + mix(s0, 31 * k as u64 + j) % 3).collect()
+        };
+        calls.push((ep.clone(), seeds, s0 % 5));
+    }
+    let (ep, seeds, pick) = calls.remove(0);
+    SweepCase { ep, seeds, pick, open_windows: 0, more: calls }
+}
+
+/// deterministic cases for entry points that are not in the pinned inventory: single calls, and (half of them) sequences
+/// around them (`feature_sequence`)
 pub fn fixed_cases(per_ep: u64) -> Vec<SweepCase> {
     let mut v = vec![];
-    for ep in probeable_eps(&scan_repo()).into_iter().filter(|e| e.unlisted) {
+    let eps = probeable_eps(&scan_repo());
+    let unlisted: Vec<Ep> = eps.iter().filter(|e| e.unlisted).cloned().collect();
+    for ep in unlisted.iter() {
         for i in 0..per_ep {
             let seeds = (0..ep.types.len() as u64).map(|k| mix(i, 100 + k)).collect();
             v.push(SweepCase { ep: ep.clone(), seeds, pick: i, open_windows: if i % 4 == 3 { (i / 4 % 16) as u8 } else { 0 }, more: vec![] });
+        }
+        for i in 0..per_ep {
+            let n = 3 + (i % 4) as usize;
+            let picks: Vec<u64> = (0..n as u64).map(|k| mix(i * 7919 + 13, k)).collect();
+            let idx = unlisted.iter().position(|e| e.contract == ep.contract).unwrap_or(0) as u64;
+            // (s0 chosen so that the sequence explores this entry point's contract)
+            let s0 = idx + unlisted.len() as u64 * mix(i, 77).wrapping_rem(1 << 40);
+            v.push(feature_sequence(&unlisted, &eps, s0, &picks));
         }
     }
     v
@@ -880,6 +949,7 @@ struct Obs {
     /// [token][holder] balances over accounts and contracts
     bal: Vec<Vec<i128>>,
     gas2_bal: i128,
+    collector: Option<Address>,
 }
 
 pub fn run(case: &SweepCase, cx: &mut Cx, rule: Rule) -> Result<(), String> {
@@ -1002,6 +1072,7 @@ fn step(sw: &SweepWorld, ep: &Ep, seeds: &[u64], pick: u64, cx: &mut Cx, rule: R
             executed: sw.approved.iter().map(|(c, i, _)| sw.w.gw.client.is_message_executed(&sstr(&env, c), &sstr(&env, i))).collect(),
             bal: tokens.iter().map(|t| sw.accounts.iter().chain(sw.contracts.iter()).map(|a| TokenClient::new(&env, t).balance(a)).collect()).collect(),
             gas2_bal: TokenClient::new(&env, &sw.w.gas_asset).balance(&sw.gas2),
+            collector: sw.w.gas.client.try_gas_collector().ok().and_then(|r| r.ok()),
         }
     };
     let before = observe();
@@ -1015,6 +1086,27 @@ fn step(sw: &SweepWorld, ep: &Ep, seeds: &[u64], pick: u64, cx: &mut Cx, rule: R
         vec![]
     };
     let collector = sw.w.gas.client.gas_collector();
+    let named: Vec<Address> = {
+        use soroban_sdk::TryFromVal;
+        fn walk(v: &ScVal, out: &mut Vec<soroban_sdk::xdr::ScAddress>) {
+            match v {
+                ScVal::Address(a) => out.push(a.clone()),
+                ScVal::Vec(Some(x)) => x.0.iter().for_each(|e| walk(e, out)),
+                ScVal::Map(Some(m)) => m.0.iter().for_each(|e| {
+                    walk(&e.key, out);
+                    walk(&e.val, out)
+                }),
+                _ => {}
+            }
+        }
+        let mut out = vec![];
+        for a in args.iter() {
+            if let Ok(sv) = ScVal::try_from_val(&env, &a) {
+                walk(&sv, &mut out);
+            }
+        }
+        out.iter().filter_map(|a| Address::try_from_val(&env, a).ok()).collect()
+    };
     let ev0 = events_len(&env);
     env.mock_all_auths_allowing_non_root_auth();
     let r = env.try_invoke_contract::<Val, soroban_sdk::Error>(&target, &Symbol::new(&env, &ep.name), args);
@@ -1032,13 +1124,19 @@ fn step(sw: &SweepWorld, ep: &Ep, seeds: &[u64], pick: u64, cx: &mut Cx, rule: R
         return Ok(false);
     }
     let authorised = |a: &Address| signers.contains(a) || *a == target;
+    // a role that passes to `new`: the holder of the governing power (just before this call) authorised this call, or an
+    // earlier call of the sequence that named `new` (two-step hand-overs: proposed by the holder, accepted by the successor)
+    let backed = |holder: &Address, new: &Address| -> bool { authorised(holder) || sw.history.borrow().iter().any(|(s, n)| s.contains(holder) && n.contains(new)) };
     let what = format!("{}::{}({:?})", ep.contract, ep.name, ep.types);
     match rule {
         Rule::Announce => {
             for e in evs.iter().filter(|e| e.0 == sw.w.gw.id && e.1.first() == Some(&sym("contract_called"))) {
                 cx.count("sweep_announcements_seen");
                 let named = e.1.get(1).cloned();
-                let okk = signers.iter().chain(std::iter::once(&target)).any(|s| Some(scv(&env, s.clone())) == named);
+                let okk = signers.iter().chain(std::iter::once(&target)).any(|s| Some(scv(&env, s.clone())) == named)
+                    // (a standing delegation, should the tree offer one: the named sender authorised, earlier in the sequence, a call
+                    // naming somebody who signs now)
+                    || sw.history.borrow().iter().any(|(s, n)| s.iter().any(|x| Some(scv(&env, x.clone())) == named) && n.iter().any(|d| signers.contains(d)));
                 if !okk {
                     return Err(format!("{} made the gateway announce a call naming a sender ({:?}) that neither authorised it nor is the calling contract", what, named));
                 }
@@ -1058,21 +1156,46 @@ fn step(sw: &SweepWorld, ep: &Ep, seeds: &[u64], pick: u64, cx: &mut Cx, rule: R
             for (i, (b, a)) in before.owners.iter().zip(after.owners.iter()).enumerate() {
                 if a != b {
                     cx.count("sweep_owner_changed");
-                    if !b.as_ref().map(|o| authorised(o)).unwrap_or(false) {
-                        return Err(format!("{} changed the owner of contract #{} without the owner's authorisation", what, i));
+                    let okk = match (b, a) {
+                        (Some(o), Some(n)) => backed(o, n),
+                        (Some(o), None) => authorised(o),
+                        _ => false,
+                    };
+                    if !okk {
+                        return Err(format!("{} changed the owner of contract #{} without the authorisation of the owner at that moment (in this call, or in an earlier call naming the successor)", what, i));
                     }
                 }
             }
             if before.gw_operator != after.gw_operator {
                 cx.count("sweep_operator_changed");
-                if !before.gw_operator.as_ref().map(|o| authorised(o)).unwrap_or(false) {
-                    return Err(format!("{} changed the gateway operator without the operator's authorisation", what));
+                let okk = match (&before.gw_operator, &after.gw_operator) {
+                    (Some(o), Some(n)) => backed(o, n),
+                    (Some(o), None) => authorised(o),
+                    _ => false,
+                };
+                if !okk {
+                    return Err(format!("{} changed the gateway operator without the authorisation of the operator at that moment (in this call, or in an earlier call naming the successor)", what));
                 }
             }
             if before.is_operator != after.is_operator {
                 cx.count("sweep_operator_set_changed");
-                if !before.owners[2].as_ref().map(|o| authorised(o)).unwrap_or(false) {
-                    return Err(format!("{} changed the operator set without its owner's authorisation", what));
+                let all: Vec<&Address> = sw.accounts.iter().chain(sw.contracts.iter()).collect();
+                for (k, (b, a)) in before.is_operator.iter().zip(after.is_operator.iter()).enumerate() {
+                    if b == a {
+                        continue;
+                    }
+                    let okk = match &before.owners[2] {
+                        Some(o) if *a => backed(o, all[k]),
+                        Some(o) => authorised(o) || authorised(all[k]) || sw.history.borrow().iter().any(|(s, _)| s.contains(all[k])),
+                        None => false,
+                    };
+                    if !okk {
+                        return Err(format!("{} changed the operator set without the authorisation of its owner at that moment (in this call, or - for a new operator - in an earlier call naming it)", what));
+                    }
+                    if !*a {
+                        // a removal voids whatever named the removed address before
+                        sw.history.borrow_mut().iter_mut().for_each(|h| h.1.retain(|x| x != all[k]));
+                    }
                 }
             }
             if before.trusted != after.trusted {
@@ -1085,13 +1208,39 @@ fn step(sw: &SweepWorld, ep: &Ep, seeds: &[u64], pick: u64, cx: &mut Cx, rule: R
                 if a != b {
                     cx.count("sweep_minters_changed");
                     let owner = before.owners[4 + i % 2].clone();
-                    if !owner.as_ref().map(|o| authorised(o)).unwrap_or(false) {
-                        return Err(format!("{} changed the minters of token {} without the token owner's authorisation", what, i % 2 + 1));
+                    let all: Vec<&Address> = sw.accounts.iter().chain(sw.contracts.iter()).collect();
+                    let who = all[i / 2];
+                    // (a minter may also hand its own right on, should the tree offer that: then a minter of that moment must
+                    // have authorised this call, or an earlier one naming the new minter)
+                    let current_minters: Vec<&Address> = (0..all.len()).filter(|k| before.minters[2 * k + i % 2]).map(|k| all[k]).collect();
+                    let okk = if *a {
+                        owner.as_ref().map(|o| backed(o, who)).unwrap_or(false) || current_minters.iter().any(|m| backed(m, who))
+                    } else {
+                        // (giving a right up: the owner takes it, or its holder lets go of it - in this call or by an earlier
+                        // one of the sequence, e.g. the proposal of a hand-over)
+                        owner.as_ref().map(|o| authorised(o)).unwrap_or(false) || authorised(who) || sw.history.borrow().iter().any(|(s, _)| s.contains(who))
+                    };
+                    if !okk {
+                        return Err(format!("{} changed the minters of token {} without the authorisation of the token's owner (or, for a right handed on, of a minter) at that moment", what, i % 2 + 1));
+                    }
+                    if !*a {
+                        sw.history.borrow_mut().iter_mut().for_each(|h| h.1.retain(|x| x != who));
                     }
                 }
             }
         }
         _ => {}
+    }
+    // the gas collector's role passes on only with the authorisation of the collector (or of the service's owner) of that moment
+    if matches!(rule, Rule::Roles | Rule::GasOut) && before.collector != after.collector {
+        cx.count("sweep_gas_collector_changed");
+        let okk = match (&before.collector, &after.collector) {
+            (Some(c), Some(n)) => backed(c, n) || before.owners[1].as_ref().map(|o| backed(o, n)).unwrap_or(false),
+            _ => false,
+        };
+        if !okk {
+            return Err(format!("{} changed the gas collector without the authorisation of the collector or the owner at that moment (in this call, or in an earlier call naming the successor)", what));
+        }
     }
     // upgrade and migrate are administrative entry points (C06) as well as C15's subject
     if matches!(rule, Rule::Code | Rule::Roles) {
@@ -1119,6 +1268,15 @@ fn step(sw: &SweepWorld, ep: &Ep, seeds: &[u64], pick: u64, cx: &mut Cx, rule: R
             });
             if newly || gw_ev("message_approved") || before.approved.iter().zip(after.approved.iter()).any(|(b, a)| !*b && *a) {
                 return Err(format!("{} approved a message although no valid proof for an approval exists", what));
+            }
+            // a signer set that had left the retention window stays outside (no rotation can have happened here)
+            for (k, old) in sw.old_sets.iter().enumerate() {
+                let dh = h32("sweep-retention-probe", k as u64);
+                let proof = old.proof(&env, &digest(&sw.w.gw.domain, &old.hash(), &dh), old.full_mask());
+                env.set_auths(&[]);
+                if matches!(sw.w.gw.client.try_validate_proof(&BytesN::from_array(&env, &dh), &proof), Ok(Ok(_))) {
+                    return Err(format!("after {} the gateway honours again the signer set installed at epoch {} (current epoch {}, which had left the retention window before)", what, k + 1, after.epoch));
+                }
             }
         }
         Rule::Consume => {
@@ -1192,6 +1350,9 @@ fn step(sw: &SweepWorld, ep: &Ep, seeds: &[u64], pick: u64, cx: &mut Cx, rule: R
         _ => {}
     }
     let _ = ScVal::Void;
+    if ok {
+        sw.history.borrow_mut().push((signers.clone(), named));
+    }
     Ok(true)
 }
 
